@@ -1,7 +1,7 @@
 (* REGENERATED from src/mxlpy/fit/abstract.py, fit/routines.py, minimizers/_scipy.py, model.py (batch editors) by harness/c20_gen.py
    -- do not edit.  Unrecognised shapes yield *Unknown / false, which breaks C20_fit_facts_pinned. *)
 From Coq Require Import List QArith String.
-From Fit Require Import LossOps FitModel.
+From Fit Require Import LossOps FitModel FitScipy.
 Import ListNotations.
 Open Scope string_scope.
 Definition gen_fit_facts : fit_facts :=
@@ -13,6 +13,8 @@ Definition gen_fit_facts : fit_facts :=
     (mkWrapperFacts true true true true true true true [])
     (mkWrapperFacts true true true true true true true [])
     (1 # 1000000) (1000000 # 1) true true true BatchValidated BatchValidated.
+(* what LocalScipyMinimizer.__call__ does with self.method: which methods get the box, how res.x is packed *)
+Definition gen_scipy_shape : scipy_shape := mkScipyShape BoundsAlways PackResX.
 Definition gen_source_digests : list (string * string) := [
   ("_Settings", "7ef6c219b20dd642");
   ("steady_state_residual", "891bbf419b57fa68");
